@@ -781,7 +781,7 @@ func checkC01(w *World, r *Report) {
 	// "an error exactly where the definition prescribes one": let, apply and the sequence builtins decide what
 	// is a sequence through one accessor
 	r.include("C01.builtin-domain-", "C13.", "the binding list of let and the sequence arguments of apply, map, cons, concat are lists or vectors: the accessor they are recognised by fails for everything else", checkC13, func(rule string) bool {
-		return rule == "C13.seq-accessor"
+		return rule == "C13.seq-accessor" || rule == "C13.index-as-given" || rule == "C13.range-error"
 	})
 	// = is the builtin programs (and the test for what a program yields) compare values with
 	r.include("C01.builtin-equal-", "C14.", "the = builtin compares every element of two sequences, and a difference anywhere makes them unequal", checkC14, func(rule string) bool {
